@@ -584,7 +584,9 @@ func edgeDistance(ij, uv float64) s1.ChordAngle {
 	// We can compute the distance QR as (1 - OQ) where O is the sphere origin,
 	// and we can compute OQ^2 = 1 - PQ^2 using the Pythagorean theorem.
 	// (This calculation loses accuracy as angle POQ approaches Pi/2.)
-	qr := 1 - math.Sqrt(1-pq2)
+	// (pq2 can exceed 1 by a rounding error when the edge is exactly 90
+	// degrees away; the square root of a negative number would be NaN.)
+	qr := 1 - math.Sqrt(math.Max(0, 1-pq2))
 	return s1.ChordAngleFromSquaredLength(pq2 + qr*qr)
 }
 
